@@ -648,7 +648,11 @@ class Engine:
                 self.pending_violations.append(
                     {"msg": msg, "signature": signature or msg, "assignment": self.assignment(m)}
                 )
-            self.assume(SymBool(c))  # continue under the assertion (PathEnd if impossible)
+                if self._feasible(c) is None:
+                    # the assertion fails for EVERY value on this path: stop here without adding the (contradictory)
+                    # assertion to the path condition, so that the recorded violation keeps a satisfiable path condition
+                    raise self._stop(PathEnd("assertion fails on every value of this path"))
+            self.assume(SymBool(c))  # continue under the assertion
         elif not cond:
             raise Violation(msg, signature)
 
